@@ -22,6 +22,8 @@ static std::string g_norm_uri(Tape &t) {
 }
 static Fields gen(Tape &t) {
   Fields f;
+  LongMode lm(t);
+  if (lm.on()) f.seti("long", 1);
   f.set("text", g_norm_uri(t));
   f.seti("mm", t.below(2));
   return f;
